@@ -39,6 +39,12 @@ package executable
 //@   property C17
 //@   modifies nothing
 //@   ensures pid == 0 ==> !b
+// a negative pid names a process group (what the executor falls back to when the task's own pid was never learnt): the
+// answer comes from probing the group's leader, never from the sign of the number - "gone" for a group that is alive
+// would end the TERM/INT/KILL escalation before anything was signalled
+//@   ghostvar probed bool = false
+//@   on call os.FindProcess : assert pid != 0 && arg0 > 0 && (arg0 == pid || arg0 == 0 - pid) ; probed = true
+//@   ensures pid != 0 ==> probed
 
 // C17 (a launch that fails is reported as FAILED - it does not take the executor down): the launch goroutine aims the
 // TERM/INT/KILL escalation only at a child that was actually started; after a failed Start there is no process
